@@ -85,16 +85,23 @@ class CallbackFailure(RuntimeError):
     """raised by the 'boom' callback: an application callback that fails for some games (a lookup that misses)"""
 
 
-def _g_boom(c, k, mu, sigma_squared, team, rank):
-    # a pure function of its arguments that FAILS for teams of exactly five players (no generator of the sequences
-    # that use it produces such a team except on purpose) and is 1/k otherwise
-    try:
-        n = len(team)
-    except TypeError:
-        n = 0
-    if n == 5:
-        raise CallbackFailure("gamma callback failed for this team")
-    return 1.0 / k
+def _mk_boom(exc_type):
+    def _g_boom(c, k, mu, sigma_squared, team, rank):
+        # a pure function of its arguments that FAILS for teams of exactly five players (no generator of the sequences
+        # that use it produces such a team except on purpose) and is 1/k otherwise
+        try:
+            n = len(team)
+        except TypeError:
+            n = 0
+        if n == 5:
+            raise exc_type("gamma callback failed for this team")
+        return 1.0 / k
+
+    return _g_boom
+
+
+_g_boom = _mk_boom(CallbackFailure)
+BOOMS = {"boom": CallbackFailure, "boom_type": TypeError, "boom_key": KeyError, "boom_value": ValueError, "boom_attr": AttributeError}
 
 
 class _Gammas(dict):
@@ -120,6 +127,10 @@ GAMMAS = _Gammas({
     "zero": _g_zero,
     "dep": _g_dep,
     "boom": _g_boom,
+    "boom_type": _mk_boom(TypeError),  # what a buggy callback really raises: None + 1, a missing key, a bad attribute
+    "boom_key": _mk_boom(KeyError),
+    "boom_value": _mk_boom(ValueError),
+    "boom_attr": _mk_boom(AttributeError),
 })
 
 
